@@ -195,6 +195,13 @@ class CanonicalEvolutionDesigner(vza.PartiallySerializableDesigner,
 
   def load(self, metadata: vz.Metadata):
     self._population = type(self._population).recover(metadata)
+    # Restores the phase (sampling vs. mutation) of the algorithm. Metadata
+    # dumped by older versions does not have the counter.
+    self._num_trials_seen = metadata.get(
+        'num_trials_seen', default=self._num_trials_seen, cls=int
+    )
 
   def dump(self) -> vz.Metadata:
-    return self._population.dump()
+    metadata = self._population.dump()
+    metadata['num_trials_seen'] = str(self._num_trials_seen)
+    return metadata
